@@ -605,7 +605,7 @@ func (e *env) label(b []byte) string {
 func runC15(a *Args) error {
 	rng := NewRng(a.Seed)
 	w := NewCaseWriter(a, "C15", "", "case", "run")
-	w.Rule = "histories of FileCache.Set / Get and environment operations (corrupt, remove, directory in the way) on a fresh cache directory, run on the real verifier/crl.FileCache; families: expiry matrix (base x delta in fresh / expired / zero NextUpdate / not a CRL), isolation scripts over pairs of near-identical urls, hostile urls (traversal, empty, the file name of another url, 5 kB) with decoy entries planted outside the root, ~60 kinds of corruption of a stored entry (truncation, bit flips, swapped fields, foreign JSON, wrong types, bad base64, damaged DER), random histories of 3..12 operations followed by a sweep of Gets, and entries that expire while the history runs (real clock). non-trivial = some Get addresses a url that was stored or corrupted earlier in the history, or the history touches a hostile url; distinct = distinct (urls, operations, CRL kinds, corruption) sequences"
+	w.Rule = "histories of FileCache.Set / Get and environment operations (corrupt, remove, directory in the way) on a fresh cache directory, run on the real verifier/crl.FileCache; families: expiry matrix (base x delta in fresh / expired / zero NextUpdate / not a CRL / nil), isolation scripts over all pairs of near-identical urls, hostile urls (traversal, empty, the file name of another url, 5 kB) with decoy entries planted outside the root, ~70 kinds of corruption of a stored entry (truncation at every length class, bit flips, swapped fields, foreign JSON, wrong types, bad base64, damaged DER), nil bundles and directories in the way, random histories of 3..12 operations followed by a sweep of Gets, and entries that expire while the history runs (real clock). non-trivial = some Get addresses a url that was stored or corrupted earlier in the history, or the history touches a hostile url; distinct = distinct (family, urls, operations, CRL kinds, corruption, results) sequences"
 	w.Assumptions = []string{
 		"crypto/sha256 has no collision among the urls of a history (checked per case inside Coq: wf)",
 		"encoding/json + encoding/base64 decode what they encoded (checked per Set inside Coq: wf) and x509.ParseRevocationList(der).Raw = der",
@@ -624,7 +624,17 @@ func runC15(a *Args) error {
 
 	// --- CRL pool ---
 	h := time.Hour
-	add := func(c *crlObj) *crlObj { e.crls[c.Label] = c; return c }
+	var tab []string
+	add := func(c *crlObj) *crlObj {
+		e.crls[c.Label] = c
+		if c.Kind != "N" {
+			e.define("crl_"+c.Label, string(c.Raw))
+		}
+		if c.Kind != "W" && c.Kind != "N" {
+			tab = append(tab, CPair("crl_"+c.Label, e.parseFact(c.Raw)))
+		}
+		return c
+	}
 	add(e.mint("F1", "F", e.t0.Add(1*h), false, 0))
 	add(e.mint("F2", "F", e.t0.Add(24*h), false, 1))
 	add(e.mint("F3", "F", e.t0.Add(30*24*h), false, 0))
@@ -633,23 +643,13 @@ func runC15(a *Args) error {
 	add(e.mint("E1", "E", e.t0.Add(-1*h), false, 0))
 	add(e.mint("E2", "E", e.t0.Add(-2*time.Second), false, 0))
 	add(e.mint("ED1", "E", e.t0.Add(-24*h), true, 0))
+	add(e.mint("ED2", "E", e.t0.Add(-3*time.Second), true, 1))
 	add(e.mint("Z1", "Z", time.Time{}, false, 0))
 	add(e.mint("ZD1", "Z", time.Time{}, true, 0))
 	add(&crlObj{Label: "W1", Kind: "W", Raw: []byte("this is not a CRL"), RL: &x509.RevocationList{Raw: []byte("this is not a CRL")}})
 	add(&crlObj{Label: "N1", Kind: "N", Raw: nil, RL: &x509.RevocationList{}})
 	// a valid DER with one trailing byte: refused by the parser
 	add(&crlObj{Label: "W2", Kind: "W", Raw: append(append([]byte{}, e.crls["F1"].Raw...), 0), RL: &x509.RevocationList{Raw: append(append([]byte{}, e.crls["F1"].Raw...), 0)}})
-	labels := []string{"F1", "F2", "F3", "FD1", "FD2", "E1", "E2", "ED1", "Z1", "ZD1", "W1", "W2"}
-	e.prelude.WriteString("From NV Require Import Base C15_Model.\nOpen Scope string_scope.\n")
-	var tab []string
-	for _, l := range labels {
-		c := e.crls[l]
-		e.define("crl_"+l, string(c.Raw))
-		if c.Kind != "W" {
-			tab = append(tab, CPair("crl_"+l, e.parseFact(c.Raw)))
-		}
-	}
-	fmt.Fprintf(&e.prelude, "Definition crl_tab : list (string * crlfact) := %s.\n", CList(tab))
 
 	// --- url pool ---
 	u0 := "http://crl.example.com/ca.crl"
@@ -657,7 +657,7 @@ func runC15(a *Args) error {
 		"http://CRL.example.com/ca.crl", u0 + "/", "http://crl.example.com//ca.crl", "http://crl.example.com/ca%2Ecrl",
 		"http://crl.example.com/a%2Fb.crl", "http://crl.example.com/a/b.crl", "http://crl.example.com/a%2fb.crl",
 		u0 + "?", u0 + "#", "http://crl.example.com:80/ca.crl", "https://crl.example.com/ca.crl", u0 + "\x00", u0 + "\n",
-		"http://crl.example.com/cä.crl", "http://crl.example.com/cä.crl", "http://crl.example.com/ca.cr",
+		"http://crl.example.com/c\u00e4.crl", "http://crl.example.com/ca\u0308.crl", "http://crl.example.com/ca.cr",
 		"http://crl.example.com/ca.crll", "http://crl.example.com./ca.crl", "http://crl.example.com/ca.crl%00"}
 	hostile := []string{"../evil", "../../evil2", "..", ".", "", "/", "a/../../evil", "../cache/" + keyOf(u0), keyOf(u0),
 		"./" + keyOf(u0), "x/../" + keyOf(u0), strings.ToUpper(keyOf(u0)), keyOf(u0)[:63], "..\\evil", "%2e%2e/evil", "notation-123456", "../evil\x00",
@@ -678,8 +678,6 @@ func runC15(a *Args) error {
 			shaT = append(shaT, CPair(name, CStr(string(hh[:]))))
 		}
 	}
-	fmt.Fprintf(&e.prelude, "Definition sha_pool : list (string * string) := Eval vm_compute in %s.\n", CList(shaT))
-	w.Prelude = e.prelude.String()
 
 	sb := filepath.Join(a.Out, "sb")
 	if err := os.MkdirAll(sb, 0o755); err != nil {
@@ -698,7 +696,14 @@ func runC15(a *Args) error {
 		term := e.execute(my, sb, hc)
 		g.account(w, my, term, hc)
 	}
-	var deferred []func()
+	type slow struct {
+		id   int64
+		mk   func(r *Rng) *hcase
+		r    *Rng
+		hc   *hcase
+		term string
+	}
+	var deferred []*slow
 	g.families(a, rng, emitCase, func(mk func(r *Rng) *hcase) {
 		// cases that sleep: executed concurrently at the end, ids fixed now
 		my := id
@@ -706,20 +711,28 @@ func runC15(a *Args) error {
 		if !w.Want(my) {
 			return
 		}
-		r := rng.Fork(uint64(my))
-		deferred = append(deferred, func() {
-			hc := mk(r)
-			term := e.execute(my, sb, hc)
-			hookMu.Lock()
-			g.account(w, my, term, hc)
-			hookMu.Unlock()
-		})
+		deferred = append(deferred, &slow{id: my, mk: mk, r: rng.Fork(uint64(my))})
 	})
-	var wg sync.WaitGroup
-	for _, f := range deferred {
-		wg.Add(1)
-		go func(f func()) { defer wg.Done(); f() }(f)
+	if len(deferred) > 0 {
+		// CRLs that expire while the histories run, minted now
+		now := time.Now().Truncate(time.Second)
+		add(e.mint("S1", "S", now.Add(3*time.Second), false, 0))
+		add(e.mint("S2", "S", now.Add(4*time.Second), false, 1))
+		add(e.mint("SD1", "S", now.Add(3*time.Second), true, 0))
+		add(e.mint("SD2", "S", now.Add(4*time.Second), true, 1))
+		var wg sync.WaitGroup
+		for _, s := range deferred {
+			s.hc = s.mk(s.r)
+			wg.Add(1)
+			go func(s *slow) { defer wg.Done(); s.term = e.execute(s.id, sb, s.hc) }(s)
+		}
+		wg.Wait()
+		for _, s := range deferred {
+			g.account(w, s.id, s.term, s.hc)
+		}
 	}
-	wg.Wait()
+	fmt.Fprintf(&e.prelude, "Definition crl_tab : list (string * crlfact) := %s.\n", CList(tab))
+	fmt.Fprintf(&e.prelude, "Definition sha_pool : list (string * string) := Eval vm_compute in %s.\n", CList(shaT))
+	w.Prelude = "From NV Require Import Base C15_Model.\nOpen Scope string_scope.\n" + e.prelude.String()
 	return w.Close()
 }
